@@ -248,6 +248,21 @@ def prop_drivers(case, stats):
                     v2 = v[::-1] * 0.5 + 0.25
                     res[tag, 'vec_hess_vec2'] = guard(cg.vec_hess_vec, w.copy(), _xarg(case, x), v2.copy())
                     _cmp(res[tag, 'vec_hess_vec2'], r['wH'] @ v2, 'second vec_hess_vec at %s point, other direction (graph recorded with %s)' % (tag, rec), stats)
+        if case.get('xform', 'float64') == 'float64':
+            # the caller keeps ONE array for the point and updates it in place between calls (x -= step * g)
+            xa = np.array(evals[0][1], dtype=float)
+            drv = [('gradient', lambda: cg.gradient(xa), 'J'), ('hess_vec', lambda: cg.hess_vec(xa, v.copy()), None)] if kind == 'scalar' \
+                else [('jacobian', lambda: cg.jacobian(xa), 'J'), ('jac_vec', lambda: cg.jac_vec(xa, v.copy()), None)]
+            for name, call, key in drv:
+                xa[...] = evals[0][1]
+                r0 = guard(call)
+                xa[...] = evals[1][1]
+                r1 = guard(call)
+                for tag, got in (('other', r0), ('recpoint', r1)):
+                    r = refs[tag]
+                    ref = r['J'] if key == 'J' else (r['H'] @ v if kind == 'scalar' else r['J'] @ v)
+                    _cmp(got, ref, '%s with the caller\'s point array %s (graph recorded with %s)'
+                         % (name, 'first filled' if tag == 'other' else 'refilled in place with another point', rec), stats)
         if kind == 'vector' and case.get('X') is not None:
             Jt = guard(cg.jacobian, UTPM(case['X'].copy()))
             if not isinstance(Jt, UTPM):
@@ -388,6 +403,12 @@ def buckets(tier):
                          (lambda kind=kind: driver_cases(tier, kind, families=PG.FAMILIES_POLY, max_len=7, poly=True)),
                          prop_drivers, {'quick': 120, 'thorough': 900}, nontrivial=_nontrivial, classes=_classes,
                          shards={'quick': 4, 'thorough': 8}, weight=6.0))
+    for kind in ('scalar', 'vector'):
+        # views of views: reshape of transposed / strided / reversed data, whose adjoints are copies, not views
+        bl.append(Bucket('drivers-views:' + kind,
+                         (lambda kind=kind: driver_cases(tier, kind, families=['reshape', 'T', 'get', 'reshape', 'un', 'bin'], max_len=6)),
+                         prop_drivers, {'quick': 80, 'thorough': 600}, nontrivial=_nontrivial, classes=_classes,
+                         shards={'quick': 2, 'thorough': 6}, weight=5.0))
     for kind in ('scalar', 'vector'):
         bl.append(Bucket('drivers-intpoint:' + kind,
                          (lambda kind=kind: driver_cases(tier, kind, families=PG.FAMILIES_POLY, max_len=6, poly=True, intpoint=True)),
